@@ -585,7 +585,9 @@ func runC38(c c38Case) (*c38Monitor, *c38Fail) {
 // generators
 // ---------------------------------------------------------------------------
 
-var c38Rates = []uint64{0, 1, 1, 2, 3, 7, 1000, 1 << 40, 1 << 57, 1 << 63, math.MaxUint64}
+// the rates around 2^55..2^56 and MaxUint64/size give single fees between 2^62 and 2^64 for the
+// pool's transaction sizes (100..300 bytes): each fits 64 bits, two of them do not
+var c38Rates = []uint64{0, 1, 1, 2, 3, 7, 1000, 1 << 40, 1 << 55, 1 << 56, math.MaxUint64 / 300, math.MaxUint64 / 200, math.MaxUint64 / 120, 1 << 57, 1 << 63, math.MaxUint64}
 
 func c38PickRate(rng *rand.Rand, small bool) uint64 {
 	if small || rng.IntN(4) != 0 {
